@@ -802,6 +802,23 @@ func (vm *vm) restoreStacks(iterLen, refLen uint32) (ex *Exception) {
 	return
 }
 
+// dropStacks truncates the iterator and reference stacks without running any script code.
+func (vm *vm) dropStacks(iterLen, refLen uint32) {
+	iterTail := vm.iterStack[iterLen:]
+	for i := range iterTail {
+		if iter := iterTail[i].iter; iter != nil {
+			iter.close()
+		}
+		iterTail[i] = iterStackItem{}
+	}
+	vm.iterStack = vm.iterStack[:iterLen]
+	refTail := vm.refStack[refLen:]
+	for i := range refTail {
+		refTail[i] = nil
+	}
+	vm.refStack = vm.refStack[:refLen]
+}
+
 func (vm *vm) handleThrow(arg interface{}) *Exception {
 	ex := vm.exceptionFromValue(arg)
 	for len(vm.tryStack) > 0 {
@@ -820,9 +837,15 @@ func (vm *vm) handleThrow(arg interface{}) *Exception {
 		vm.sp = int(tf.sp)
 		vm.stash = tf.stash
 		vm.privEnv = tf.privEnv
-		_ = vm.restoreStacks(tf.iterLen, tf.refLen)
-		// closing iterators may have run script code that grew (reallocated) the try stack
-		tf = &vm.tryStack[len(vm.tryStack)-1]
+		if ex != nil {
+			_ = vm.restoreStacks(tf.iterLen, tf.refLen)
+			// closing iterators may have run script code that grew (reallocated) the try stack
+			tf = &vm.tryStack[len(vm.tryStack)-1]
+		} else {
+			// uncatchable (interrupt, stack overflow, foreign panic): no script code may run,
+			// so open iterators are dropped without calling their return() method
+			vm.dropStacks(tf.iterLen, tf.refLen)
+		}
 
 		if tf.catchPos == tryPanicMarker {
 			break
